@@ -539,7 +539,10 @@ spifconf_shell_expand(spif_charptr_t s)
               break;
           case '\\':
               D_CONF(("Escape sequence detected.\n"));
-              if (!in_single || (in_single && *(pbuff + 1) == '\'')) {
+              if (!*(pbuff + 1)) {
+                  /* A backslash at the very end escapes nothing. */
+                  newbuff[j] = *pbuff;
+              } else if (!in_single || (in_single && *(pbuff + 1) == '\'')) {
                   switch (tolower(*(++pbuff))) {
                     case 'n':
                         newbuff[j] = '\n';
@@ -587,6 +590,10 @@ spifconf_shell_expand(spif_charptr_t s)
                   }
               }
               if (!builtins[k].name) {
+                  if (!*pbuff) {
+                      /* A lone '%' at the very end:  do not step over the terminator. */
+                      pbuff--;
+                  }
                   newbuff[j] = *pbuff;
               } else {
                   D_CONF(("Call to built-in function %s detected.\n", builtins[k].name));
@@ -607,9 +614,13 @@ spifconf_shell_expand(spif_charptr_t s)
                             break;
                       }
                   }
-                  *(--tmp1) = 0;
+                  if (tmp1 > Command) {
+                      tmp1--;
+                  }
+                  *tmp1 = 0;
                   if (l) {
                       libast_print_error("parse error in file %s, line %lu:  Mismatched parentheses\n", file_peek_path(), file_peek_line());
+                      FREE(Command);
                       return (spif_charptr_t) NULL;
                   }
                   Command = spifconf_shell_expand(Command);
